@@ -91,7 +91,7 @@ def struct_diff(t1, t2):
 
 def run(ctx, impl_only=False):
     n = 2500 if ctx.thorough() else 350
-    pairs = FAM.gen_pairs(ctx, n)
+    pairs = FAM.gen_pairs(ctx, n) + FAM.alias_pairs(ctx, max(12, n // 12))       # incl. inputs that share objects with each other
     reqs = []
     for (t1, t2) in pairs:
         case = {'t1': repr(t1), 't2': repr(t2)}
